@@ -247,7 +247,7 @@ pub fn run(cs: &Case) -> Outcome {
     out.fails.extend(d.fails.clone());
     // the filesystem itself put bytes into the reply area and THEN failed: the error reply is the one
     // message, the bytes behind it stay in the (device-writable) buffers, which virtio permits
-    let partial = matches!(cs.res, MockRes::Read { mode: ReadMode::PartialThenErr, .. }) || fs.dir_returns.lock().unwrap().contains(&crate::mockfs::DIR_FAILED);
+    let partial = matches!(cs.res, MockRes::Read { mode: ReadMode::PartialThenErr, .. }) || fs.dir_returns.lock().unwrap().iter().any(|r| *r == crate::mockfs::DIR_FAILED || *r == -1);
     // O2: at most one reply
     if d.replies.len() > 1 {
         out.fail(format!("reply/count:{}/{}", d.replies.len(), opname), format!("{} replies emitted for one request", d.replies.len()));
